@@ -298,3 +298,53 @@ def write_fileset(fs, root):
 
 def clone(fs):
     return copy.deepcopy(fs)
+
+
+# ------------------------------------------------------------------ rule-bending signatures (search streams)
+
+def gen_params_wild(ctx, nmax=10):
+    """parameter lists that ignore the soft rules: multiplicities beyond 15, several object
+    arrays, object arrays mixed with single objects in the *other* direction, object-bearing
+    structs anywhere.  Still respects what the grammar admits."""
+    rng = ctx.rng
+    n = rng.randint(1, nmax)
+    params = []
+    plain = data_types(ctx, False)
+    withobj = data_types(ctx, True)
+    for k in range(n):
+        d = rng.choice(["in", "out"])
+        r = rng.random()
+        name = "p%d" % k
+        if r < 0.2:
+            t, sh = rng.choice(PRIMS), None
+        elif r < 0.28:
+            t, sh = "buffer", None
+        elif r < 0.36:
+            t, sh = rng.choice(PRIMS), "[]"
+        elif r < 0.46 and plain:
+            t, sh = rng.choice(plain), rng.choice([None, None, "[]"])
+        elif r < 0.62:
+            t, sh = rng.choice(["interface"] + ctx.vis_ifaces()), None
+        elif r < 0.78:
+            t, sh = rng.choice(["interface"] + ctx.vis_ifaces()), "[%d]" % rng.choice([1, 2, 3, 14, 15, 16, 17])
+        elif withobj:
+            t, sh = rng.choice(withobj), None
+        else:
+            t, sh = rng.choice(PRIMS), None
+        params.append((d, t, sh, name))
+    return params
+
+
+def gen_wild_fileset(rng):
+    ctx = Ctx(rng)
+    decls = []
+    for _ in range(rng.randint(1, 4)):
+        decls.append(gen_struct(ctx, ctx.fresh("S")))
+    decls.append(gen_iface(ctx, ctx.fresh("I"), None, nmembers=2))
+    members = []
+    for _ in range(rng.randint(1, 4)):
+        members.append(("method", ctx.fresh("m"), gen_params_wild(ctx), False, None))
+    name = ctx.fresh("I")
+    ctx.ifaces[name] = {"base": None, "file": 0}
+    decls.append(("iface", name, None, members))
+    return {"files": [{"path": "main.idl", "includes": [], "decls": decls}], "main": "main.idl", "idirs": []}
